@@ -14,7 +14,7 @@ EXPLANATION = (
     "R-C11-2 (key domain): a neighbour map built by get_neighbors_of_nodes for a caller-chosen SUBSET has that subset as its key "
     "domain; an unwrapped lookup in such a map (keys are neighbours, which need not be in the subset) is a violation unless an "
     "existence guard dominates it; the map's provenance is followed inter-procedurally through parameters and closure captures.  "
-    "R-C11-3: the result of the subset-taking functions depends on the node_names argument (restriction is not ignored).  NOT "
+    "R-C11-5: the edge lookups reachable from the clustering functions obey the edge stores' canonical-key discipline (same rule as R-C02-3), without which a weight is looked up under an orientation it is not stored under.  R-C11-3: the result of the subset-taking functions depends on the node_names argument (restriction is not ignored).  NOT "
     "decided: any coefficient's value, the [0,1] range, that subset values equal the full computation's values."
 )
 TRUSTED = ["rustc MIR construction", "CFG paths over-approximate executions; dependence is over-approximated"]
@@ -118,6 +118,13 @@ def run(ctx):
             ctx.require(not bad, "R-C11-4", key, "both operands of the intersection in %s are self-excluded neighbour sets" % b.short.split("::", 3)[-1], "an intersection in %s uses a neighbour set from which the node itself was not removed (%s): a self-loop is counted as a common neighbour" % (b.short, "; ".join(bad)), loc_str(t.span))
     ctx.floor("R-C11-4", "intersections_in_kernels", n_int, 12)
     ctx.note("square.rs removes the centre node after intersecting (different scheme) and is outside R-C11-4")
+
+    # ------------------------------------------------------------------ R-C11-5
+    from props.c02 import key_discipline
+
+    roots = [prog.one(sfx).path for sfx in ("cluster::clustering", "cluster::average_clustering", "cluster::triangles", "cluster::transitivity", "cluster::generalized_degree", "square::square_clustering")]
+    only = prog.reachable_bodies(roots)
+    key_discipline(ctx, prog, flows, "R-C11-5", only, 0, 1, why=" -- restricted to what the clustering functions call: the weighted coefficients read edge weights through these lookups")
 
     # ------------------------------------------------------------------ R-C11-3
     ctx.rule("R-C11-3", "results of the subset-taking functions depend (data flow, not merely validation) on node_names")
